@@ -78,6 +78,8 @@ type harness struct {
 
 	once  sync.Once
 	flows []*flow
+	// boundaries are the catch events of the boundary listener flows
+	boundaries []*catchEvent
 	// ctx is the context of the first activation (the one the boundary
 	// listener flows are started with)
 	ctx context.Context
@@ -174,6 +176,7 @@ func newHarness(wr *wiring, idGenerator id.IGenerator, constructor constructor) 
 		}
 		flowable := newFlow(node.definitions, catchEventNode, node.tracer, node.flowNodeMapping, node.flowWaitGroup, idGenerator, actionTransformer, node.locator)
 		node.flows = append(node.flows, flowable)
+		node.boundaries = append(node.boundaries, catchEventNode)
 	}
 	return
 }
@@ -215,9 +218,22 @@ func (node *harness) NextAction(ctx context.Context, flow Flow) chan IAction {
 		node.ctx = ctx
 		sender := node.tracer.RegisterSender()
 		go node.run(ctx, sender)
+		// a token has arrived: from here on events are forwarded to the
+		// boundary events (the first of them may arrive as soon as a
+		// boundary event reports that it listens)
+		atomic.StoreInt32(&node.active, 1)
 		for i := range node.flows {
 			flowable := node.flows[i]
 			flowable.Start(ctx)
+		}
+		// The activity is activated only once its boundary events listen:
+		// an event delivered as soon as the activity's request is visible
+		// must find them armed.
+		for _, boundary := range node.boundaries {
+			select {
+			case <-boundary.armed:
+			case <-ctx.Done():
+			}
 		}
 	})
 
